@@ -2123,4 +2123,9 @@ pub fn run(rng: &mut R, out: &mut Out) {
     generated(&mut cx, rng);
     elip(&mut cx, rng);
     text(&mut cx, rng);
+    bridge::run(&mut cx, rng);
 }
+
+/// C07 × C08 × C14 bridge checks (separate file, shares the helpers of this module)
+#[path = "c07_bridge.rs"]
+mod bridge;
